@@ -280,3 +280,46 @@ def binary_view(case, sample, level=None):
     levels = sorted(str(v) for v in case["target"]["levels"])
     level = levels[1] if level is None else str(level)
     return (sample.y.astype(str) == level).astype(int)
+
+
+EDIT_STRATEGY = st.lists(
+    st.tuples(st.sampled_from(["group", "group", "replace", "nan", "newcat"]), st.integers(0, 5), st.integers(0, 11), st.booleans()), max_size=3
+)
+
+
+def apply_edits(obj, case, edits):
+    """Applies manual edits (update_discretizer) described as data to a fitted object.
+    Returns (ok, labelled_nan, labels): ok False when an edit raised (edits themselves are C17's subject);
+    labelled_nan = features whose missing values were grouped by hand (they get a label whatever dropna says)."""
+    from oracles.views import feature_views
+
+    views = list(feature_views(obj, case))
+    labelled_nan, labels = set(), []
+    if not views:
+        return True, labelled_nan, labels
+    for step, (kind, fsel, lsel, flag) in enumerate(edits):
+        feat, raw, spec = views[fsel % len(views)]
+        order = obj.values_orders[feat]
+        non_nan = [l for l in order if not (isinstance(l, str) and l == "__NAN__")]
+        quantitative = spec["kind"] in ("continuous", "discrete")
+        nan_leader = any(isinstance(l, str) and l == "__NAN__" for l in order)
+        nan_known = any(isinstance(m, str) and m == "__NAN__" for l in order for m in order.content.get(l, []))
+        if kind == "group" and len(non_nan) >= 2 and spec["kind"] != "categorical":
+            i = lsel % (len(non_nan) - 1)
+            d, k = (non_nan[i], non_nan[i + 1]) if flag else (non_nan[i + 1], non_nan[i])
+            res = observe(obj.update_discretizer, feat, "group", d, k)
+        elif kind == "group" and len(non_nan) >= 2:
+            res = observe(obj.update_discretizer, feat, "group", non_nan[lsel % len(non_nan)], non_nan[(lsel + 1) % len(non_nan)])
+        elif kind == "replace" and not quantitative and non_nan:
+            res = observe(obj.update_discretizer, feat, "replace", non_nan[lsel % len(non_nan)], f"RENAMED_{step}")
+        elif kind == "nan" and non_nan and (nan_leader or not nan_known):
+            res = observe(obj.update_discretizer, feat, "group", float("nan"), non_nan[lsel % len(non_nan)])
+            labelled_nan.add(feat)
+        elif kind == "newcat" and not quantitative and non_nan:
+            res = observe(obj.update_discretizer, feat, "group", f"NEWCAT_{step}", non_nan[lsel % len(non_nan)])
+        else:
+            continue
+        if not res.ok:
+            return False, labelled_nan, labels
+        labels.append(f"edited:{kind}")
+    return True, labelled_nan, labels
